@@ -192,7 +192,7 @@ def check_vc(pc, goal, tier="quick", want_model=True, extra=(), hints=None, loca
     parts = core.split_goal(goal)
     short = dict(hints)
     # 0. the whole (sliced) VC through the z3 API for a moment: many VCs are immediate for z3
-    r = _check_vc(sp, goal, tier, want_model, extra, {"api_only_ms": 300})
+    r = _check_vc(sp, goal, tier, want_model, extra, {"api_only_ms": 300, "no_background": hints.get("no_background")})
     if r["status"] == "unsat":
         r["time"] = time.time() - t0
         return r
@@ -276,7 +276,7 @@ def _check_vc(pc, goal, tier="quick", want_model=True, extra=(), hints=None):
         s.add(t)
     s.add(z3.Not(goal))
     allt = z3.And(*(list(pc) + [goal])) if pc else goal
-    if _mentions(allt, "ssum"):
+    if _mentions(allt, "ssum") and not hints.get("no_background"):
         for l in core.SSUM_LEMMAS():
             s.add(l)
     for t in extra:
